@@ -106,13 +106,19 @@ class Branch(Term, metaclass=abc.ABCMeta):
     def __repr__(self):
         return f'{self.__class__.__name__}[{self._name}]'
 
+    def reset(self) -> None:
+        """Drop any outstanding replicas."""
+        self._queue.clear()
+
     @classmethod
     def fork(cls, term: Term, szout: int = 1) -> typing.Iterable[Term]:
         """Method for creating a sequence of terms implementing the forking strategy."""
         if szout > 1:
             replicas = szout - 1
             queue = collections.deque(maxlen=replicas)
-            return [Push(queue, term, replicas), *(Pop(queue, repr(term)) for _ in range(replicas))]
+            # the evaluation order of the consumers is independent of the order in which they get these terms
+            # assigned - whichever is called first produces the value, the others take its replicas
+            return [Push(queue, term, replicas) for _ in range(szout)]
         return [term]
 
 
@@ -126,7 +132,8 @@ class Push(Branch):
         self._replicas: int = replicas
 
     def __call__(self, arg: typing.Any) -> typing.Any:
-        assert not self._queue, 'Outstanding elements'
+        if self._queue:  # replica already produced by a parallel branch evaluated earlier
+            return self._queue.popleft()
         value = self._term(arg)
         for _ in range(self._replicas):
             self._queue.append(value)  # assuming we are duplicating just the reference
@@ -158,17 +165,24 @@ class Expression(Term):
         assert len(dag) > 0 and dag[-1].szout == 0 and not dag[0].args, 'Invalid DAG'
         providers: typing.Mapping[Term, typing.Deque[Term]] = {n.term: collections.deque([n.term]) for n in dag}
         providers[dag[0].term] = collections.deque(Branch.fork(dag[0].term, dag[0].szout))  # the head can fan out too
-
+        self._replicas: list[Branch] = [t for t in providers[dag[0].term] if isinstance(t, Branch)]
         for node in dag[1:]:
             args = [providers[a].popleft() for a in node.args]
             term = (Zip if len(args) > 1 else Chain)(providers[node.term].popleft(), *args)
-            providers[node.term].extend(Branch.fork(term, node.szout))
+            forked = Branch.fork(term, node.szout)
+            self._replicas.extend(t for t in forked if isinstance(t, Branch))
+            providers[node.term].extend(forked)
         assert len(providers[dag[-1].term]) == 1
         self._term: Term = providers[dag[-1].term].popleft()
         assert not any(providers.values()), 'Outstanding providers'
 
     def __call__(self, arg: typing.Any) -> typing.Any:
-        return self._term(arg)
+        try:
+            return self._term(arg)
+        except Exception:
+            for replica in self._replicas:  # don't leak replicas of a failed evaluation into the next call
+                replica.reset()
+            raise
 
     def __repr__(self):
         return repr(self._term)
